@@ -64,7 +64,12 @@ func loadSpec(p *Program) ([]specRecord, error) {
 func checkC05(p *Program, r *Result) {
 	r.Explanation = "Structural necessary conditions of 'writer output is a spec-valid file whose every pointer is exact': " +
 		"(C05.a) for each of the 15 record kinds the Go encoder's layout (fields, widths, order, framing opcode), extracted from the typed AST with helpers summarised recursively, equals the table in website/docs/spec/index.md; " +
-		"(C05.s) the size reserved in the reusable message buffer covers the bytes then written into it."
+		"(C05.s) the size reserved in the reusable message buffer covers the bytes then written into it; " +
+		"(C05.b) each offset field (attachment/metadata index offsets, chunk start, message index offsets, in-chunk message offsets, summary group starts, footer summary start and summary-offset start) is a position snapshot " +
+		"after which the next write to the sink, on every path, is the record the field designates (or the constant 0 where the spec allows it); " +
+		"(C05.c) each length (chunk length, message index length, group lengths, metadata index length) is the difference of the two snapshots that bracket exactly the designated writes, and the chunk index repeats the chunk header's sizes and times; " +
+		"(C05.d) in flushActiveChunk the compressor is closed and CRC, size and bytes are read before they are reset, chunk times are the running values or 0 for a message-less chunk, and per-chunk accumulators start fresh for the next chunk; " +
+		"(C05.e) every successful path of writeSummarySection that wrote records appended a summary offset (Close derives 'no summary' from an empty list)."
 	r.NotDecided = []string{"whole-file grammar; numeric exactness of offsets/lengths/times on concrete inputs"}
 	r.rule("C05.a", "encoder layout equals the spec table, field by field", 30)
 	r.rule("C05.s", "reserved message-buffer size >= bytes written into it", 15)
@@ -75,4 +80,14 @@ func checkC05(p *Program, r *Result) {
 	}
 	lf.checkEncVsSpec(p, r, "C05.a")
 	lf.checkSizes(p, r, "C05.s")
+	r.rule("C05.b", "every offset field is a position snapshot taken immediately before the record it designates", 6)
+	r.rule("C05.c", "every length is the difference of the snapshots bracketing exactly the designated record(s)", 6)
+	r.rule("C05.d", "chunk header values are captured before the buffers/counters are reset, and per-chunk state starts fresh", 9)
+	r.rule("C05.e", "a summary offset is recorded whenever summary records were written", 1)
+	spec := sinkSpec()
+	R := p.reachSet(spec)
+	isSink := p.scopeFn(spec, R)
+	checkOffsetsAndLengths(p, r, isSink)
+	checkFlush(p, r)
+	checkSummaryOffsetsComplete(p, r, isSink)
 }
